@@ -205,7 +205,7 @@ PROPS["C07"] = dict(
          "tape-chosen nodes while the tape schedules every message delivery, raft tick and client step and the adversary injects message "
          "drop/reorder/delay, partitions (symmetric, asymmetric, leader isolated) and heals, slow nodes, crash-restart of a minority at "
          "quiescence or at a sync/send/reply seam, rconf add/delete (35 % of the crash configurations are the directed ack-then-crash / "
-         "vote-then-crash choreographies described under C08); then everything is healed and restarted, every node must answer a fresh "
+         "vote-then-crash / vote-then-torn-crash choreographies described under C08); then everything is healed and restarted, every node must answer a fresh "
          "command within 60 simulated seconds and every key is read back on every node; oracles = porcupine over the client history against "
          "the reference model (unanswered commands stay pending), equal keyspace dumps for equal applied index after every step and at the "
          "end, no node death; non-trivial = at least two clients answered and (unless the fault-free configuration) at least one fault fired; "
@@ -230,7 +230,9 @@ PROPS["C08"] = dict(
          "configurations are choreographed by a directed adversary whose choices come from the tape: ack-then-crash (cut the other follower off, "
          "kill follower F at the before-sync seam of the Ready that answers the next append, lose its unsynced sectors, wait for the client "
          "acknowledgement, isolate/kill the leader, restart F and let the quorum without the leader serve, then heal) and vote-then-crash (kill "
-         "the swing voter between answering MsgVote and persisting the vote, restart it, let the cut-off second candidate ask in the same term); "
+         "the swing voter between answering MsgVote and persisting the vote, restart it, let the cut-off second candidate ask in the same term) and vote-then-torn-crash (isolate the leader, let the followers elect "
+         "a new one, kill the voter at the before-sync seam of a large append losing only the last unsynced sector so that its WAL record is "
+         "torn, restart it and reconnect it with the deposed leader of the older term); "
          "oracle = after repair every "
          "acknowledged SET must be visible in the read-back of every node (latest acknowledged or a later in-flight write), the whole history "
          "incl. read-backs must be linearizable, no node may die taking/applying a snapshot or fail to restart from its own image; "
